@@ -271,7 +271,7 @@ fn timed(lines: &[String], bounds_s: &[f64]) -> Vec<String> {
 
 pub fn run(tier: Tier) -> i32 {
     let rep = Report::new("C01", tier, "model_checking");
-    rep.set_rule("SCOPE: voices {V0, P1(V0)} + generated G(ns in {2,3}, stage in {0..3}, nstate in {1,2,3,5,7}, 6 window sets incl. two with even-length windows, gv on/off) plus six voices with spectral orders 64..129, a four-window set and a 31-tap low-pass stream) x utterances (empty; 1 label over the cover set Lambda and one-group recombinations; label pairs; corpus windows of 3 and 8; structurally extreme typed labels) x every condition with <= d deviations from the default over the per-setter alphabets; each case synthesised by the real Engine inside catch_unwind; distinct = (voice, condition, utterance); non-trivial = non-empty utterance");
+    rep.set_rule("SCOPE: voices {V0, P1(V0)} + generated G(ns in {2,3}, stage in {0..3}, nstate in {1,2,3,5,7}, 6 window sets incl. two with even-length windows, gv on/off) plus six voices with spectral orders 64..129, a four-window set and a 31-tap low-pass stream) x utterances (empty; 1 label over the cover set Lambda and one-group recombinations; label pairs; corpus windows of 3..8 labels; structurally extreme typed labels) x every condition with <= d deviations from the default over the per-setter alphabets; each case synthesised by the real Engine inside catch_unwind; distinct = (voice, condition, utterance); non-trivial = non-empty utterance");
     rep.assume("labels outside Lambda/RECOMB1/corpus windows, conditions with more deviations than the bound and utterances longer than 8 labels are not explored; stable range = conservative reading (|F1|,|F2|,|F1+F2| <= 4 on a 33-point grid; LSP: K>0, gaps >= pi/(4(order+1)))");
     let st = Stats { in_range: Default::default(), out_range: Default::default(), short_mean: Default::default(), nonfinite_ok: Default::default() };
     let corpus = labels::corpus();
@@ -296,6 +296,10 @@ pub fn run(tier: Tier) -> i32 {
     gutts.push(Utt::Strs(corpus[0..3].to_vec()));
     gutts.push(Utt::Strs(vec![corpus[1].clone(), String::new(), corpus[2].clone()]));
     gutts.push(Utt::Strs(corpus[100..108].to_vec()));
+    // every length in between, so that label and state counts of either parity and every small multiple occur
+    for n in 4..=7usize {
+        gutts.push(Utt::Strs(corpus[200 + 10 * n..200 + 11 * n].to_vec()));
+    }
     gutts.push(Utt::Strs(timed(&corpus[40..43], &[0.0, 0.05, 0.12, 0.2])));
     for u in partial_timed(&corpus[40..44]) {
         gutts.push(Utt::Strs(u));
